@@ -13,6 +13,10 @@ class Unsupported(Exception):
     pass
 
 
+class OutOfTable(Unsupported):
+    """a constant table is read at an index it does not have: the program itself has no defined value there"""
+
+
 class _Return(Exception):
     def __init__(self, v):
         self.v = v
@@ -140,7 +144,9 @@ def ev(n, env):
         return [ev(x, env) for x in n.get("inits", [])]
     if k == "subscript":
         base, idx = ev(n["base"], env), ev(n["idx"], env)
-        if not isinstance(base, list) or not isinstance(idx, int) or not (0 <= idx < len(base)):
+        if isinstance(base, list) and isinstance(idx, int) and not (0 <= idx < len(base)):
+            raise OutOfTable("index %d outside the %d-element constant table" % (idx, len(base)))
+        if not isinstance(base, list) or not isinstance(idx, int):
             raise Unsupported("subscript outside a known constant array")
         return base[idx]
     if k == "un" and n.get("op") in ("pre++", "post++", "pre--", "post--"):
